@@ -299,6 +299,7 @@ func (vc *VC) havoc(fr *Frame, st *State, ms *ModSet, why string) {
 		vc.heap(st, t)
 		st.heaps[k] = vc.fresh("H_"+k, "(Array Int "+vc.u.sortOf(t)+")")
 		vc.assume(vc.refsBelowAxiom(st.heaps[k], t, st.alloc))
+		vc.assume(vc.elemWfAxiom(st.heaps[k], t))
 	}
 	for _, k := range sortedKeys(ms.maps) {
 		mt := vc.u.mapKeys[k]
